@@ -1,7 +1,7 @@
 (* C13 - set_extension changes only the extension of the final component. *)
 From Coq Require Import List NArith Bool.
 Import ListNotations.
-From TP Require Import Core CoreProofs Path Unix Spec Utf8Proofs C11Proofs C13Proofs.
+From TP Require Import Core CoreProofs Path Unix Spec Utf8Proofs C11Proofs C13Proofs StdUnix StdSetExt.
 
 (* Unix, every buffer l and extension ext. *)
 (* a path without a file name: false, buffer untouched *)
@@ -44,10 +44,17 @@ Print Assumptions C13_unix_file_name.
 Print Assumptions C13_unix_parent.
 Print Assumptions C13_unix_new_name_ok.
 Print Assumptions C13_unix_char_boundary.
-(* C13_windows_partial / C13_std_partial: the Windows instance (same generic set_extension over the
-   Windows back parser) and byte-equality with the transcription of std::path::PathBuf::set_extension are
-   not proved; both are decided on every explored case (oracle_c13 over the specifications for both
-   encodings; pair.c13 against the real std::path::PathBuf). *)
+(* "for Unix paths the resulting bytes equal those produced by std::path::PathBuf::set_extension": the
+   transcription of std's _set_extension (StdUnix.v) and the model are the same function, result and
+   boolean, on every buffer and every extension (this was C13_std_partial until StdSetExt.v: std truncates
+   where its back iterator stops trimming, the model at back_off + length of the file name, and both are
+   the length of skip_back of the buffer).  The transcription is diffed against the real
+   std::path::PathBuf on every explored case (pair.c13). *)
+Theorem C13_std_bytes : forall buf ext : list N, s_set_extension buf ext = u_set_extension buf ext.
+Proof. exact set_extension_bytes. Qed.
+Print Assumptions C13_std_bytes.
+(* C13_windows_partial: the Windows instance (the same generic set_extension over the Windows back
+   parser) is not proved; it is decided on every explored case by oracle_c13 over the specification. *)
 
 Example C13_example :
   u_set_extension [102;111;111;46;116;120;116;47] [114;115] = ([102;111;111;46;114;115], true)
